@@ -4,6 +4,7 @@ import (
 	"bufio"
 	"fmt"
 	"io"
+	"os"
 	"os/exec"
 	"strconv"
 	"strings"
@@ -28,7 +29,16 @@ type Solver struct {
 	Script []string
 	marks  []int
 	Dead   bool
+	// HardTimeout kills the solver process when one check-sat takes longer.
+	HardTimeout time.Duration
 }
+
+// DumpSlow, when set, names a file that receives the standalone script of a
+// query that hit the hard timeout.
+var DumpSlow = os.Getenv("GOSYM_DUMPSLOW")
+
+// SlowLog, when set, is called for queries slower than two seconds.
+var SlowLog func(d time.Duration, extra string, scriptLines int)
 
 // Result of a check-sat.
 type Result int
@@ -64,7 +74,8 @@ func NewSolver(kind string, timeoutMs int) (*Solver, error) {
 	if err := cmd.Start(); err != nil {
 		return nil, err
 	}
-	s := &Solver{Name: kind, cmd: cmd, in: in, out: bufio.NewReaderSize(out, 1<<16)}
+	s := &Solver{Name: kind, cmd: cmd, in: in, out: bufio.NewReaderSize(out, 1<<16),
+		HardTimeout: time.Duration(timeoutMs)*time.Millisecond*2 + 5*time.Second}
 	if kind == "cvc5" {
 		s.raw("(set-logic ALL)")
 	} else {
@@ -147,7 +158,13 @@ func (s *Solver) Check(extra string) Result {
 // CheckModel is Check, and on sat reads back the values of the named constants.
 func (s *Solver) CheckModel(extra string, names []string) (Result, map[string]uint64) {
 	t0 := time.Now()
-	defer func() { s.Time += time.Since(t0) }()
+	defer func() {
+		d := time.Since(t0)
+		s.Time += d
+		if SlowLog != nil && d > 2*time.Second {
+			SlowLog(d, extra, len(s.Script))
+		}
+	}()
 	s.Queries++
 	if s.Dead {
 		s.Unknown++
@@ -158,7 +175,25 @@ func (s *Solver) CheckModel(extra string, names []string) (Result, map[string]ui
 		s.raw("(assert " + extra + ")")
 	}
 	s.raw("(check-sat)")
+	// watchdog: a solver that does not honour its soft timeout is killed; the
+	// query (and the rest of the path, whose scope is lost) is inconclusive
+	var watchdog *time.Timer
+	if s.HardTimeout > 0 {
+		script := ""
+		if DumpSlow != "" {
+			script = s.Standalone(extra)
+		}
+		watchdog = time.AfterFunc(s.HardTimeout, func() {
+			if DumpSlow != "" {
+				os.WriteFile(DumpSlow, []byte(script), 0o644)
+			}
+			s.cmd.Process.Kill()
+		})
+	}
 	lines, err := s.sync()
+	if watchdog != nil {
+		watchdog.Stop()
+	}
 	res := Unknown
 	bad := err != nil
 	for _, l := range lines {
